@@ -1223,7 +1223,89 @@ func c18ErrorPath(r *ev.Run, m, mExtra *dyn.Model, pa c18path, batch, pi int, re
 	}
 }
 
+// c18FallbackCase: against a server without monitor_cond_since the client falls back to
+// monitor_cond. A first monitor is established that way; a second Monitor call falls back
+// too and is refused. After that failed call the client must go on applying the updates of
+// the first monitor, and reads must return.
+func c18FallbackCase(r *ev.Run, m *dyn.Model, batch int) {
+	p := prng.Derive(ev.Seed(), "C18fallback", batch)
+	dir := wireScratch()
+	hs, err := newHistServer(m, fmt.Sprintf("%s/c18h-%d.sock", dir, batch), p)
+	if err != nil {
+		r.Inconclusive("history server: " + err.Error())
+		return
+	}
+	defer hs.close()
+	hs.mu.Lock()
+	hs.oldServer, hs.condAllowed = true, 1
+	hs.mu.Unlock()
+	l := logr.Discard()
+	cl, err := client.NewOVSDBClient(m.Client, client.WithEndpoint("unix:"+hs.path), client.WithLogger(&l))
+	if err != nil {
+		return
+	}
+	defer cl.Close()
+	r.LogCase("C18 fallback monitor refused")
+	r.Eval(1)
+	r.Count("fallback_cases", 1)
+	ctx, cancel := context.WithTimeout(context.Background(), 20*time.Second)
+	defer cancel()
+	if err := cl.Connect(ctx); err != nil {
+		r.Inconclusive("connect to the old server: " + err.Error())
+		return
+	}
+	if _, err := cl.Monitor(ctx, cl.NewMonitor(client.WithTable(m.NewModel("T", "", nil)))); err != nil {
+		r.Violation("C18/fallback/first-monitor-fails", "Monitor against a server without monitor_cond_since fails although monitor_cond is available: "+err.Error(), nil)
+		return
+	}
+	seen := func(name string) bool {
+		for i := 0; i < 1000; i++ {
+			lst := reflect.New(reflect.SliceOf(m.Types["T"]))
+			lctx, lcancel := context.WithTimeout(context.Background(), 2*time.Second)
+			err := cl.List(lctx, lst.Interface())
+			lcancel()
+			if err == nil {
+				for k := 0; k < lst.Elem().Len(); k++ {
+					if _, row, rerr := m.RowOf("T", lst.Elem().Index(k).Addr().Interface()); rerr == nil && datumStr(row["name"]) == name {
+						return true
+					}
+				}
+			}
+			time.Sleep(10 * time.Millisecond)
+		}
+		return false
+	}
+	_ = hs.apply([]ref.Op{{Kind: "insert", Table: "T", UUID: p.UUID(), Row: c18Row("before", 1)}})
+	if !seen("before") {
+		lst := reflect.New(reflect.SliceOf(m.Types["T"]))
+		lctx, lcancel := context.WithTimeout(context.Background(), 2*time.Second)
+		lerr := cl.List(lctx, lst.Interface())
+		lcancel()
+		r.Inconclusive(fmt.Sprintf("the update of the first monitor never showed up (harness?): List error %v, %d rows, last notes %v", lerr, lst.Elem().Len(), hs.lastNotes))
+		return
+	}
+	mctx, mcancel := context.WithTimeout(context.Background(), 5*time.Second)
+	_, merr := cl.Monitor(mctx, cl.NewMonitor(client.WithTable(m.NewModel("U", "", nil))))
+	mcancel()
+	if merr == nil {
+		r.Count("fallback.second-monitor-accepted", 1)
+		return
+	}
+	_ = hs.apply([]ref.Op{{Kind: "insert", Table: "T", UUID: p.UUID(), Row: c18Row("after", 2)}})
+	if !c18Probe(func() { _ = cl.Get(context.Background(), m.NewModel("T", "", ref.Row{"name": ref.Set(ref.Str("before"))})) }) {
+		r.Violation("C18/blocked-forever/fallback-monitor-refused/Get@"+blockedFrame(allStacks(), "Get"), "after a Monitor call that fell back to monitor_cond and was refused, Get never returns (45 s, nothing else running)", map[string]interface{}{"goroutines_in_libovsdb": allStacks()})
+		return
+	}
+	if !seen("after") {
+		r.Violation("C18/updates-not-applied-after-failed-monitor/fallback", "after a Monitor call that fell back to monitor_cond and was refused, the updates of the established monitor are no longer applied (10 s, nothing else running)", nil)
+	}
+}
+
 func c18Child(r *ev.Run, batch int) {
+	if m, err := dyn.Build(c18Schema(false), nil); err == nil {
+		c18FallbackCase(r, m, batch)
+	}
+
 	m, err := dyn.Build(c18Schema(false), nil)
 	if err != nil {
 		r.Violation("C18/harness/model-build", err.Error(), nil)
